@@ -233,7 +233,7 @@ class LazyToken:
         if name in ("Number", "FixedNumber"):
             # a numeral is a finite real -- or +inf if the current tokenizer turns a literal beyond the double
             # range (1e999) into a Number token (probed concretely on the real tokenizer)
-            val = e.float_any("t%d.num" % self.i, kinds=("finite", "+inf") if _overflow_literals_tokenise() else ("finite",))
+            val = e.float_any("t%d.num" % self.i, kinds=_number_kinds())
         elif name == "Identifier":
             val = VOCAB[e.choice(len(VOCAB), "t%d.ident" % self.i)]
         elif name == "Label":
@@ -258,15 +258,20 @@ class LazyToken:
 _PROBE = {}
 
 
-def _overflow_literals_tokenise() -> bool:
-    if "inf" not in _PROBE:
+def _overflow_literals_tokenise(text: str = "1e999") -> bool:
+    """does the current tokenizer turn a literal beyond the double range into an infinite Number token?"""
+    if text not in _PROBE:
         import pyimpspec.circuit.tokenizer as tk
         try:
-            toks = tk.Tokenizer().process("1e999")
-            _PROBE["inf"] = len(toks) == 1 and toks[0].value == float("inf")
+            toks = tk.Tokenizer().process(text)
+            _PROBE[text] = len(toks) == 1 and toks[0].value in (float("inf"), float("-inf"))
         except Exception:
-            _PROBE["inf"] = False
-    return _PROBE["inf"]
+            _PROBE[text] = False
+    return _PROBE[text]
+
+
+def _number_kinds():
+    return ("finite",) + (("+inf",) if _overflow_literals_tokenise("1e999") else ()) + (("-inf",) if _overflow_literals_tokenise("-1e999") else ())
 
 
 def _token_classes(tk):
@@ -300,8 +305,9 @@ def render_tokens(witness, n):
         if name in ("Number", "FixedNumber"):
             v = witness.get("t%d.num" % i, 1)
             v = 1 if v is None else v
-            if witness.get("t%d.num.kind" % i) == 1:
-                parts.append("1e999" + ("F" if name == "FixedNumber" else ""))
+            nk = _number_kinds()[int(witness.get("t%d.num.kind" % i) or 0)] if int(witness.get("t%d.num.kind" % i) or 0) < len(_number_kinds()) else "finite"
+            if nk != "finite":
+                parts.append(("1e999" if nk == "+inf" else "-1e999") + ("F" if name == "FixedNumber" else ""))
                 continue
             f = float(Fraction(v)) if isinstance(v, str) and "/" in v else float(str(v).rstrip("?"))
             txt = repr(f)
